@@ -73,7 +73,7 @@ def params(cfg):
         return [('t', {})]
     if k == 'q2d_surface':
         return [('x', {'gt': 0, 'lt': 1}), ('y', {'gt': 0, 'lt': 1}), ('c', {'gt': 0, 'lt': 0.3}), ('k', {'gt': -2, 'lt': 0.5}),
-                ('R', {'gt': 1, 'lt': 3}), ('s', {'gt': 0, 'lt': 0.5})]
+                ('R', {'gt': 1, 'lt': 3}), ('s', {'gt': -0.5, 'lt': 0.5})]      # decentres of either sign
     if k == 'sag':
         # curvature, conic constant, radial coordinate, azimuth, off-axis distances; keep the radicand positive
         return [('c', {'gt': 0, 'lt': 0.5}), ('k', {'gt': -2, 'lt': 0}), ('rho', {'gt': 0, 'lt': 1}), ('t', {}),
